@@ -29,6 +29,12 @@ EDITS = [
      "        self._insert(k, v)\n        super().setdefault(k, []).append(v)", 1, 'reorder dict and list updates in add()'),
     ('C12', 'boltons/socketutils.py', "            if len(self.rbuf) >= size:\n                data, self.rbuf = self.rbuf[:size], self.rbuf[size:]\n                return data",
      "            if len(self.rbuf) >= size:\n                data = self.rbuf[:size]\n                self.rbuf = self.rbuf[size:]\n                return data", 1, 'split a tuple assignment'),
+    ('C12', 'boltons/socketutils.py', "                    total_sent += sent\n                    sbuf[0] = sbuf[0][sent:]\n",
+     "                    rest = sbuf[0][sent:]\n                    sbuf[0] = rest\n                    total_sent = total_sent + sent\n", 1,
+     'send loop: temporary + reordered independent statements'),
+    ('C02', 'boltons/cacheutils.py', "                self.miss_count += 1\n                if not self.on_miss:\n                    raise\n                ret = self[key] = self.on_miss(key)\n                return ret\n\n            self.hit_count += 1\n            return link[VALUE]",
+     "                self.miss_count += 1\n                if not self.on_miss:\n                    raise\n                ret = self.on_miss(key)\n                self[key] = ret\n                return ret\n\n            self.hit_count += 1\n            return link[VALUE]", 1,
+     'LRI.__getitem__: chained assignment split'),
 ]
 
 
